@@ -186,7 +186,7 @@ func runSharded(rc *RunCtx, rep *Report, nWorkers int, body func(sh Shard, rep *
 				}
 				continue
 			}
-			if i == 0 {
+			if _, dup := extra[k]; !dup {
 				extra[k] = v
 			}
 		}
